@@ -8,6 +8,7 @@ import Astm.Lemmas.ReadBack
 import Astm.Lemmas.ReadBackRecord
 import Astm.Generated.Schemas
 import Astm.Contract.Schemas
+import Astm.Model.Heap
 
 namespace Astm.C13
 open Astm Astm.Schema Astm.Fields
@@ -182,6 +183,44 @@ theorem shipped_schemas_read_back : ∀ M ∈ Astm.Gen.schemas, ∀ S ∈ M.reco
 theorem too_many_values_error {α : Type} (specs : List α) (items : List Field) (h : items.length > specs.length) :
     zipFields specs items = .error .value := by
   simp [zipFields, h]
+
+theorem mapME_error_of_mem {α β : Type} (f : α → Except Err β) :
+    ∀ (xs : List α), (∃ x ∈ xs, ∃ e, f x = .error e) → ∃ e, mapME f xs = .error e := by
+  intro xs
+  induction xs with
+  | nil => intro h; obtain ⟨x, hx, _⟩ := h; simp at hx
+  | cons a as ih =>
+    intro h
+    obtain ⟨x, hx, e, he⟩ := h
+    cases hf : f a with
+    | error e' => exact ⟨e', by simp [mapME, hf, bind, Except.bind]⟩
+    | ok b =>
+      have hx' : x ∈ as := by
+        rcases List.mem_cons.mp hx with rfl | h'
+        · rw [hf] at he; cases he
+        · exact h'
+      obtain ⟨e', he'⟩ := ih ⟨x, hx', e, he⟩
+      exact ⟨e', by simp [mapME, hf, he', bind, Except.bind]⟩
+
+/-- List operations on a repeated field (`append`, `extend`, `insert`, `lst[i] = x`, `+=`) are all-or-nothing: every
+    new occurrence is checked like a component given to the field, and if one of them violates a constraint nothing
+    is stored — no record of the process changes, not even by the valid occurrences in front of the refused one. -/
+theorem list_operation_all_or_nothing (W : Heap.World) (subs : List Scalar) (now : Str) (r : Nat) (fld : String)
+    (wires : List (List (Option Str))) (sel : List (Nat ⊕ Nat))
+    (h : ∃ w ∈ wires, ∃ e, buildComponent subs now w = .error e) :
+    Heap.stepChecked W subs now r fld wires sel = W := by
+  obtain ⟨e, he⟩ := mapME_error_of_mem (buildComponent subs now) wires h
+  simp [Heap.stepChecked, Heap.checkedRelist, he, Except.map]
+
+/-- … and when all are accepted, what is stored are exactly the checked components (each built by the same function
+    that builds a component of a wire record, so the per-kind theorems above apply to every sub-value). -/
+theorem list_operation_stores_checked_components (W : Heap.World) (subs : List Scalar) (now : Str) (r : Nat) (fld : String)
+    (wires : List (List (Option Str))) (sel : List (Nat ⊕ Nat)) (news : List (List (String × V)))
+    (h : mapME (buildComponent subs now) wires = .ok news) :
+    Heap.stepChecked W subs now r fld wires sel = Heap.step W (.relist r fld news sel) ∧
+    ∀ c ∈ news, ∃ w ∈ wires, buildComponent subs now w = .ok c := by
+  refine ⟨by simp [Heap.stepChecked, Heap.checkedRelist, h, Except.map], ?_⟩
+  exact mapME_mem _ wires news h
 
 /-- calendar validity is real: 29 February exists exactly in leap years; month 13, day 0, hour 24,
     minute 60 and second 60 do not exist -/
